@@ -6,7 +6,7 @@
 EXTENDS Transclusion, Json, IOUtils
 
 Cases == JsonDeserialize(IOEnv.TRACE_FILE)
-KnownDevs == {}
+KnownDevs == {"ArgTrailingNewlineDropped"}
 
 VARIABLES i, bad
 Init == i = 1 /\ bad = <<>>
@@ -15,7 +15,7 @@ Next ==
   /\ LET c == Cases[i]
          ideal == Expand(c.page, c.lib, {})
      IN bad' = IF c.out = ideal THEN bad
-               ELSE Append(bad, [i |-> i, expected |-> ideal])
+               ELSE Append(bad, [i |-> i, expected |-> ideal, asis |-> Expand(c.page, c.lib, KnownDevs)])
   /\ i' = i + 1
 Spec == Init /\ [][Next]_<<i, bad>>
 Verdict == (i = Len(Cases) + 1) => PrintT(<<"VERDICT", ToJson([consumed |-> i - 1, bad |-> bad])>>)
